@@ -26,5 +26,6 @@ func controlsC08() []Control {
 		{Name: "pause predicate asks the previous hand\u2019s snapshot for the break", Expect: "R2", Mutate: replaceIn("(Table).ShouldPause", "t.State.BlindState.IsBreaking()", "t.State.GameBlindState.IsBreaking()", 0)},
 		{Name: "survivor list starts with a nil entry", Expect: "R5", Mutate: replaceIn("(*tableEngine).settleGame", "alivePlayers := make([]*TablePlayerState, 0)", "alivePlayers := make([]*TablePlayerState, 1)", 0)},
 		{Name: "set-up operation drops participants before arming the gate", Expect: "R5", Mutate: replaceIn("(*tableEngine).SetUpTableGame", "te.ogm.Setup(gameCount, participants)", "expected := map[string]int{}\n\tfor id, idx := range participants {\n\t\tif te.table.FindPlayerIdx(id) != UnsetValue {\n\t\t\texpected[id] = idx\n\t\t}\n\t}\n\tte.ogm.Setup(gameCount, expected)", 0)},
+		{Name: "a reservation arms the continue step's time bank", Expect: "R3", Mutate: replaceIn("(*tableEngine).PlayerReserve", "te.emitEvent(\"PlayerReserve\", joinPlayer.PlayerID)", "te.emitEvent(\"PlayerReserve\", joinPlayer.PlayerID)\n\tte.tbForOpenGame.NewTask(time.Second, func(isCancelled bool) {})", 0)},
 	}
 }
